@@ -81,6 +81,10 @@ t0n_addr_chk(void *base, size_t off, size_t width)
 {
 #ifndef C05_EFFECT
 	size_t end = t0n_field_end(off);
+#ifdef NATIVE_REPLAY
+	printf("T0_ADDR: context offset %lu, access width %lu, enclosing field ends at %lu (0 = no field), sizeof context %lu\n",
+		(unsigned long)off, (unsigned long)width, (unsigned long)end, (unsigned long)sizeof(T0N_CTXT));
+#endif
 	CHECK(base == (void *)t0n_the_ctx, "T0_ADDR: base is the context");
 	CHECK(end != 0, "T0_ADDR: context-offset operand lies inside a field of the context");
 	CHECK(end == 0 || width <= end - off, "T0_ADDR: access through a context-offset operand stays inside the field it starts in");
@@ -106,6 +110,9 @@ t0n_region_chk(const void *p, size_t n, int wr)
 		size_t off = __CPROVER_POINTER_OFFSET(p);
 #endif
 		size_t end = t0n_field_end(off);
+#ifdef NATIVE_REPLAY
+		printf("string function: region at context offset %lu, %lu bytes, enclosing field ends at %lu\n", (unsigned long)off, (unsigned long)n, (unsigned long)end);
+#endif
 		CHECK(end != 0 && n <= end - off, "string-function region that starts in a context field stays inside that field");
 	}
 #else
@@ -167,10 +174,9 @@ main(void)
 	t0n_the_ctx = &the_ctx;
 	ND_BYTES(c05_in, C05_HB);
 	c05_init_symbolic(&the_ctx);
-	c05_env(&the_ctx);
-
 	t0n_dpi = ND_U32();
 	t0n_rpi = ND_U32();
+	c05_env(&the_ctx);
 #ifdef C05_EFFECT
 	ASSUME(t0n_dpi >= 9 && t0n_dpi <= T0N_NDP - 9);
 	ASSUME(t0n_rpi >= 9 && t0n_rpi <= T0N_NRP - 9);
@@ -201,11 +207,16 @@ main(void)
 			__CPROVER_assert(t0n_co != 0, "EFF noco");
 			__CPROVER_assert(!t0n_co || C05_ERRF(&the_ctx) != 0, "EFF coerr");
 			__CPROVER_assert(!t0n_co || C05_ERRF(&the_ctx) != 0 || top0 == 0, "EFF coerr_nz");
+#ifdef C05_SPEC_DUP
+			__CPROVER_assert(t0n_dpi == d0 + 1 && T0N_STK(&the_ctx)->dp_stack[d0] == top0 && T0N_STK(&the_ctx)->dp_stack[d0 - 1] == top0, "SPEC dup");
+#endif
 			__CPROVER_assert(0, "EFF completed");
 		}
 	}
 #else
 	ASSUME(t0n_dpi <= T0N_NDP && t0n_rpi <= T0N_NRP);
+	/* E4: at every call site the depth leaves room for the native's (proved) need and peak */
+	ASSUME(t0n_dpi >= C05_NEED && t0n_dpi <= T0N_NDP - C05_PEAK);
 	c05_precond(&the_ctx, OP);
 	t0n_co = 0;
 	C05_DISPATCH(&the_ctx, OP);
